@@ -358,6 +358,11 @@ def graphOp (toks : List S) : S :=
             else if kindOf t == "u" then .oneof (idx t) else if kindOf t == "e" then .enum (idx t) else .object (idx t)
           let f := if how == "a" then Field.array base else if how == "m" then Field.map base else base
           { name := strOf p, field := f, tag := if how == "s" then 4 else 0 } }
+    -- the schema set is refused when any reference is unresolved (`assertRefsLink`)
+    let linked := match linkAll g with
+      | some (.ok _) => true
+      | _ => false
+    if !linked then "err" else
     let l := match walk g (idx root) with
       | some (.ok vs) =>
         let ps := (vs.filter (fun v => tagSearch v.tag)).map (fun v => ".".intercalate (names v.path))
